@@ -8,9 +8,16 @@ ASSUMPTIONS = [
     "CLAIMED clauses only: (b) a failure inside type collection, function lookup or the logger never reaches the traced program; "
     "(c) on exit from the tracing context, normally or by exception, the previous profiler is back, the logger was flushed exactly once, "
     "and the profiler is restored before the flush",
-    "NOT claimed (outside this technique here): 'same results with and without tracing' (a whole-program differential over two interpreter "
-    "runs) and 'the tracer never executes user-defined code' (the observation is which dunder hooks CPython's C builtins invoke; the symbolic "
-    "engine replaces exactly those builtins by Python models, so it cannot observe it)",
+    "(d) hook freedom: the tracer (CallTracer.__call__, handle_call/handle_return, get_func and its helpers, get_type) runs no user-defined code of "
+    "the program's objects. Tripwire objects journal every hook; the journal must be empty. Under the engine MonkeyType's isinstance calls go "
+    "through harness/tripwires.py cpython_isinstance (Objects/abstract.c object_isinstance transcribed: reads obj.__class__ when type(obj) is not a "
+    "subclass), because the engine's isinstance model never reads __class__; the transcription is compared with builtins.isinstance (result and "
+    "journal) on every tripwire kind x every class argument MonkeyType uses, natively, on every run. Hook calls whose nearest non-stdlib caller "
+    "is the engine's own code and that are engine probes (__class__ reads, __ch_* lookups) are not counted. EVERY explored path is re-executed "
+    "natively (real isinstance, no engine) and must give the same verdict",
+    "hook freedom covers values reaching type collection and function lookup; hashing/equality of CLASS objects by typing.Union (metaclass "
+    "__hash__/__eq__), the logger/store path, and C-level slots that no Python-level hook can observe are outside the claim",
+    "NOT claimed (outside this technique here): 'same results with and without tracing' (a whole-program differential over two interpreter runs)",
     "fault sites are symbolic booleans: get_type on an argument, get_type on the return/yield value, function lookup, logger.log, plus "
     "argument / return objects whose own inspection raises (a __class__ property that raises); exception classes Exception, ValueError, "
     "RecursionError, AttributeError, KeyError, TypeError; all single, double and higher combinations; BaseException-only faults and a raising "
@@ -29,4 +36,10 @@ def run(tier):
             bounds=dict(body_raises="bool", flush_raises="bool", previous_profiler="bool", via="trace_calls | monkeytype.trace(config)", k="symbolic int", rate="symbolic int"),
             rule="one path = one exit scenario of the tracing context", describe=H.describe),
     ]
-    return run_check(PID, tier, jobs, H.FUNCTIONS, ASSUMPTIONS, level_if_exhausted="fault_enumeration")
+    jobs.append(
+        Job("harness.c03", "hookfree", [{"t0": i} for i in range(len(H.TW.KINDS))], 300,
+            bounds=dict(tripwire_kinds=[k for k, _ in H.TW.KINDS], positions=list(H.POSITIONS), k="symbolic int (every limit)",
+                        events="call/return, call/yield/call/return, call (lookup only)"),
+            rule="one path = one tripwire kind x position x class of k; the journal of user-defined hooks that ran must be empty",
+            describe=H.describe, max_samples=10**6, validate_limit=10**6))
+    return run_check(PID, tier, jobs, H.FUNCTIONS, ASSUMPTIONS, level_if_exhausted="fault_enumeration", pre=H.validate_models)
